@@ -168,9 +168,10 @@ def evidence(agg, tier, seed, wall, batches):
     coverage = {
         "evaluations": agg["nruns"],
         "distinct_nontrivial": len(agg["nontrivial"]),
-        "rule": "one evaluation = one simulated history executed in a forked world. Plan styles (seed-chosen): focused chains 30%, "
-                "covering walk of every operation of one kind 22%, repeat-op / query thrash 13%, cursor duel 7%, inheritance probe "
-                "(all argument-less questions on X, up to 8 derivations, all questions on each) 10%, mixed 2-4 interleaved sessions 18%; "
+        "rule": "one evaluation = one simulated history executed in a forked world. Plan styles (seed-chosen): focused chains 27%, "
+                "covering walk of every operation of one kind 20%, repeat-op / query thrash 13%, cursor duel 6%, inheritance probe "
+                "(all argument-less questions on X, up to 8 derivations, all questions on each) 10%, memo thrash on a CDS/transcript 7%, "
+                "mixed 2-4 interleaved sessions 17%; "
                 "echo steps (same question again) and lazily consumed iterator answers (cursor open/resume/drain) are woven in. "
                 "Every call's answer - or the slice of an iterator answer taken in that step - is compared with the same expression "
                 "evaluated alone in a pristine fork (I1); operands' structural snapshot and the caller's argument values before/after "
